@@ -17,8 +17,13 @@ from .model import Program, AnalysisError
 from .report import Ctx, finish
 
 
-def run_property(prop: str, repo: str, tier: str, overrides=None):
-    """returns (ctx, module).  Raises AnalysisError."""
+def run_property(prop: str, repo: str, tier: str, overrides=None, confirm: bool = True):
+    """returns (ctx, module).  Raises AnalysisError.
+
+    confirm: a VIOLATION that is not listed as known is re-examined on two behaviour-preserving respellings of the whole tree
+    (every single-use adjacent temporary inlined; call arguments that are calls extracted into temporaries).  A genuine violation is a
+    fact about behaviour and is reported (under the same rule, in the same function) on the respellings too; one that disappears depends on
+    how the code is spelled and is demoted to UNKNOWN with a note.  If a respelling cannot be analysed the original verdict stands."""
     try:
         mod = importlib.import_module(f"msdmlint.props.{prop.lower()}")
     except ModuleNotFoundError as e:
@@ -32,6 +37,8 @@ def run_property(prop: str, repo: str, tier: str, overrides=None):
     program.resolved_call_signatures = register_call_signatures(program)
     ctx = Ctx(prop, program, tier)
     mod.run(ctx)
+    if confirm and os.environ.get("MSDMLINT_NO_CONFIRM") != "1":
+        _confirm(prop, repo, tier, overrides, program, ctx)
     try:
         ctx.check_minima()
         ctx.minima_error = None
@@ -43,6 +50,46 @@ def run_property(prop: str, repo: str, tier: str, overrides=None):
             raise
         ctx.minima_error = str(e)
     return ctx, mod
+
+
+def _confirm(prop, repo, tier, overrides, program, ctx):
+    from .report import load_known
+    from .respell import respell
+    known = {k["key"] for k in load_known().get("known", []) if k.get("property") == prop}
+    viol = [o for o in ctx.obs if o.verdict == "VIOLATION" and o.key(prop) not in known]
+    if not viol:
+        return
+    ctx.extra["confirmation"] = {}
+    for kind in ("inlineall", "extract"):
+        ov = dict(overrides or {})
+        try:
+            for m in program.modules.values():
+                if m.relpath.endswith("__init__.py"):
+                    continue
+                new = respell(kind, ov.get(m.relpath, m.source))
+                import warnings
+                with warnings.catch_warnings():
+                    warnings.simplefilter("ignore")
+                    compile(new, m.relpath, "exec")
+                ov[m.relpath] = new
+            ctx2, _ = run_property(prop, repo, tier, ov, confirm=False)
+        except Exception as e:      # the respelled tree could not be analysed: the original verdicts stand
+            ctx.extra["confirmation"][kind] = f"not analysable ({type(e).__name__}: {str(e)[:120]})"
+            continue
+        # a respelling may move the report to a neighbouring rule of the same function: confirmation is per function
+        seen = {o.function for o in ctx2.obs if o.verdict == "VIOLATION"}
+        dropped = 0
+        for o in viol:
+            if o.verdict == "VIOLATION" and o.function not in seen:
+                o.verdict = "UNKNOWN"
+                o.detail = (o.detail + " " if o.detail else "") + f"[not confirmed: no rule fires in {o.function} on the `{kind}` respelling of the tree, " \
+                                                                  "so the report depends on how the code is spelled, not on what it computes]"
+                dropped += 1
+        ctx.extra["confirmation"][kind] = f"{len(viol) - dropped} of {len(viol)} violations confirmed"
+    from .cfg import clear_cache
+    clear_cache()
+    from .callgraph import register_call_signatures
+    register_call_signatures(program)       # the registry is keyed by call nodes of the tree under report
 
 
 def main(argv=None) -> int:
